@@ -291,6 +291,9 @@ func sanitize(s string) string {
 
 func (c *Ctx) writeReplay(name string, replay any) string {
 	dir := filepath.Join(VerifDir, "replays", c.ID)
+	if d := os.Getenv("VERIF_REPLAY_DIR"); d != "" {
+		dir = filepath.Join(d, c.ID)
+	}
 	os.MkdirAll(dir, 0o755)
 	p := filepath.Join(dir, name+".json")
 	b, err := json.MarshalIndent(map[string]any{"check": c.ID, "tier": c.Tier, "case": replay}, "", " ")
@@ -358,8 +361,12 @@ func (c *Ctx) Finish() int {
 	}
 	b, _ := json.MarshalIndent(ev, "", " ")
 	if c.ReplayFile == "" {
-		os.MkdirAll(filepath.Join(VerifDir, "evidence"), 0o755)
-		os.WriteFile(filepath.Join(VerifDir, "evidence", c.ID+".json"), append(b, '\n'), 0o644)
+		evdir := filepath.Join(VerifDir, "evidence")
+		if d := os.Getenv("VERIF_EVIDENCE_DIR"); d != "" {
+			evdir = d
+		}
+		os.MkdirAll(evdir, 0o755)
+		os.WriteFile(filepath.Join(evdir, c.ID+".json"), append(b, '\n'), 0o644)
 	}
 	for _, s := range sigs {
 		fmt.Printf("KNOWN-FINDING: property=%s %s (signature=%s, witnesses in this run: %d)\n", c.ID, c.knownWhat[s], s, c.knownHit[s])
